@@ -5,7 +5,7 @@
    chi2 D c = sum_i w_i (row_i . c - y_i)^2 with row_i the design row of x_i, i.e. sum invvar*(spline(x)-y)^2. *)
 From Coq Require Import QArith List Bool Arith.
 Import ListNotations.
-From PV Require Import Lib.WLS BSpline.Eval BSpline.Fit BSpline.CoxDeBoor BSpline.FitProofs BSpline.BandProofs Generated.BSpline BSpline.GenBridge C09.Model C09.Proofs C09.Triangular.
+From PV Require Import Lib.WLS BSpline.Eval BSpline.Fit BSpline.CoxDeBoor BSpline.FitProofs BSpline.BandProofs Generated.BSpline BSpline.GenBridge C09.Model C09.Proofs C09.Triangular C09.NonFinite.
 Open Scope Q_scope.
 
 (* the fit's coefficients minimise the weighted chi-square over ALL coefficient vectors *)
@@ -230,3 +230,44 @@ Example C09_example_recovery :
   | None => false
   end = true.
 Proof. vm_compute. reflexivity. Qed.
+
+(* ---- round 6: "failure is a status code" for NON-FINITE normal equations (NaN / +-inf in invvar or xdata).
+   screen_status_model (C09/Model.v) is the screening of cholesky_band in IEEE comparison semantics: diag = alpha[0, 0:n], the
+   columns reported are those with diag_j <= mininf -- NaN never compares, so the reported index list can be EMPTY. *)
+
+(* a non-finite band in which no diagonal entry is flagged (e.g. a NaN in invvar makes the threshold NaN): the fit has failed with
+   status -2 and an unchanged breakpoint mask -- never "success" because nothing was flagged *)
+Theorem C09_nonfinite_unflagged_is_status_minus2 :
+  forall bmask k diag mininf,
+    (forall j, (j < length diag)%nat -> xle (nth j diag XNaN) mininf = false) ->
+    screen_status_model bmask k diag mininf false = Some ((-2)%Z, bmask).
+Proof. exact screen_nonfinite_unflagged. Qed.
+Print Assumptions C09_nonfinite_unflagged_is_status_minus2.
+
+Theorem C09_nan_threshold_is_status_minus2 :
+  forall bmask k diag, screen_status_model bmask k diag XNaN false = Some ((-2)%Z, bmask).
+Proof. exact screen_nan_threshold. Qed.
+Print Assumptions C09_nan_threshold_is_status_minus2.
+
+(* whatever is flagged: a non-finite band never ends in status 0 *)
+Theorem C09_nonfinite_band_is_failure :
+  forall bmask k diag mininf st nm,
+    screen_status_model bmask k diag mininf false = Some (st, nm) -> (st = (-1)%Z \/ st = (-2)%Z).
+Proof. exact screen_nonfinite_is_failure. Qed.
+Print Assumptions C09_nonfinite_band_is_failure.
+
+(* on finite input the IEEE screening is the diagonal screening of the exact status model *)
+Theorem C09_screen_finite_is_fit_status :
+  forall bmask k (diag : list Q) (mininf : Q) r,
+    screen_status_model bmask k (map XFin diag) (XFin mininf) true = Some r ->
+    fit_status_model bmask k diag mininf = r.
+Proof. exact screen_finite_is_fit_status. Qed.
+Print Assumptions C09_screen_finite_is_fit_status.
+
+(* non-vacuity: 7 breakpoints all good, nord 2, NaN threshold; and +inf weights flag every column (-1, breakpoints dropped) *)
+Example C09_example_nonfinite :
+  screen_status_model (repeat true 7) 2 [XFin 1; XNaN; XNaN; XFin 2; XFin 1] XNaN false = Some ((-2)%Z, repeat true 7)
+  /\ (match screen_status_model (repeat true 7) 2 [XFin 1; XPInf; XPInf; XFin 2; XFin 1] XPInf false with
+      | Some (st, nm) => Z.eqb st (-1) && existsb negb nm | None => false end) = true
+  /\ screen_status_model (repeat true 7) 2 [XFin 1; XFin 1; XFin 1; XFin 2; XFin 1] (XFin 0) true = None.
+Proof. vm_compute. repeat split; reflexivity. Qed.
